@@ -39,8 +39,10 @@ type execPlanShape struct {
 	chanCap int64
 	capPos  token.Pos
 	goStmts []*ast.GoStmt
-	worker  *ast.FuncLit
-	sends   []*ast.SendStmt // sends on chanObj anywhere in worker
+	worker     ast.Node       // the function started by the go statement: a literal, or the declaration of a named function
+	workerBody *ast.BlockStmt
+	workerChan types.Object   // the result channel as the worker names it (the captured variable, or its parameter)
+	sends      []*ast.SendStmt // sends on the result channel anywhere in worker
 }
 
 func loadExecPlan(c *core.Ctx) *execPlanShape {
@@ -82,10 +84,29 @@ func loadExecPlan(c *core.Ctx) *execPlanShape {
 		return true
 	})
 	if len(s.goStmts) == 1 {
-		if fl, ok := s.goStmts[0].Call.Fun.(*ast.FuncLit); ok {
-			s.worker = fl
-			ast.Inspect(fl, func(n ast.Node) bool {
-				if snd, ok := n.(*ast.SendStmt); ok && core.ObjOf(s.info, snd.Chan) == s.chanObj {
+		call := s.goStmts[0].Call
+		if fl, ok := call.Fun.(*ast.FuncLit); ok {
+			s.worker, s.workerBody, s.workerChan = fl, fl.Body, s.chanObj
+		} else if f := core.CalleeObj(s.info, call); f != nil {
+			// `go runPlan(…, resultChannel)`: the worker is a named function of the package, the channel one of its parameters
+			if fd := c.DeclOfObj(f); fd != nil && fd.Body != nil {
+				s.worker, s.workerBody = fd, fd.Body
+				var params []types.Object
+				for _, fl := range fd.Type.Params.List {
+					for _, nm := range fl.Names {
+						params = append(params, s.info.Defs[nm])
+					}
+				}
+				for i, a := range call.Args {
+					if core.ObjOf(s.info, a) == s.chanObj && i < len(params) {
+						s.workerChan = params[i]
+					}
+				}
+			}
+		}
+		if s.worker != nil && s.workerChan != nil {
+			ast.Inspect(s.worker, func(n ast.Node) bool {
+				if snd, ok := n.(*ast.SendStmt); ok && core.ObjOf(s.info, snd.Chan) == s.workerChan {
 					s.sends = append(s.sends, snd)
 				}
 				return true
@@ -133,7 +154,7 @@ func c16Once(c *core.Ctx, r *core.Reporter) {
 		"the worker must have exactly one send site on the result channel (a second send publishes a partial or duplicate result; none blocks the caller)")
 	// first deferred function
 	var firstDefer *ast.DeferStmt
-	for _, st := range s.worker.Body.List {
+	for _, st := range s.workerBody.List {
 		if d, ok := st.(*ast.DeferStmt); ok {
 			firstDefer = d
 			break
@@ -394,6 +415,15 @@ func c16Partial(c *core.Ctx, r *core.Reporter) {
 		}
 	}
 	captured := false
+	// a named worker gets what it works on as arguments: the named result must not be one of them
+	for _, a := range s.goStmts[0].Call.Args {
+		ast.Inspect(a, func(n ast.Node) bool {
+			if id, ok := n.(*ast.Ident); ok && named[info.Uses[id]] {
+				captured = true
+			}
+			return true
+		})
+	}
 	// every *Result-typed variable written inside the worker must be declared inside the worker
 	outside := ""
 	ast.Inspect(s.worker, func(n ast.Node) bool {
